@@ -312,7 +312,10 @@ class World:
         r = ref or T["OutputReference"](b"\x00" * 32, 0)
         return T["Transaction"]([T["Input"](r, sig)], [T["Output"](v, self.keys.public_key(k)) for (v, k) in outs])
 
-    def mine(self, parent_hash, height, ts, target, txs, pow_ok=True, ev_ok=True, merkle_ok=True, nonce0=0):
+    def mine(self, parent_hash, height, ts, target, txs, pow_ok=True, ev_ok=True, merkle_ok=True, nonce0=0, forge=""):
+        """forge (only with ev_ok=False): "" = one bit of the evidence hash flipped; "summary_hash" = a coherent forgery whose
+        summary hash is *not* scrypt of the summary (sample and evidence hash derived from it consistently);
+        "sample" = wrong sample bytes with a consistent evidence hash."""
         T = self.T
         mr = indep.merkle_root([indep.txid(t) for t in txs]) if txs else b"\x11" * 32
         if not merkle_ok:
@@ -329,7 +332,16 @@ class World:
             except (KeyError, ZeroDivisionError):
                 sh = scr(indep.enc_summary(summary), height.to_bytes(8, "big"))
                 sample, bh = b"\x00" * 32, indep.blake2(sh)
-            if not ev_ok:
+            if not ev_ok and forge == "summary_hash":
+                sh = indep.blake2(b"cheap" + indep.enc_summary(summary))
+                try:
+                    sh, sample, bh = indep.evidence(summary, height, txs, lambda h: self.chain_bytes(parent_hash, h), lambda a, b_: sh)
+                except (KeyError, ZeroDivisionError):
+                    sample, bh = b"\x00" * 32, indep.blake2(sh + b"\x00" * 32 + indep.enc_txlist(txs))
+            elif not ev_ok and forge == "sample":
+                sample = bytes([sample[0] ^ 0x10]) + sample[1:]
+                bh = indep.blake2(sh + sample + indep.enc_txlist(txs))
+            elif not ev_ok:
                 bh = bytes([bh[0] ^ 1]) + bh[1:]
             hdr = T["BlockHeader"](summary, T["PowEvidence"](sh, sample, bh))
             if (indep.sha256d(indep.enc_header(hdr)) < target) == pow_ok:
@@ -444,7 +456,7 @@ class World:
             v = (int.from_bytes(exp, "big") + 1) % (1 << 256)
             target = v.to_bytes(32, "big")
         blk = self.mine(parent_hash, d["height"], d["ts"], target, txs, pow_ok=d["powok"], ev_ok=d["evok"],
-                        merkle_ok=d["merkleok"])
+                        merkle_ok=d["merkleok"], forge=["", "summary_hash", "sample"][(d["id"] + d["ts"]) % 3])
         self.by_abs[d["id"]] = blk
         self.register(blk)
         return blk
